@@ -1838,11 +1838,6 @@ theorem normalizeHost_regname (idna : Str → Option Str) (h s : Str) (hsch : s 
 
 theorem plain_not_ipv6 {H : Str} (hH : ∀ c ∈ H, hostPlainC c = true) : Url.ipv6AddrzMatch H = false := by
   unfold Url.ipv6AddrzMatch
-  have hnl : H.getLast? ≠ some 10 := by
-    intro e
-    have hm : (10 : Nat) ∈ H := List.mem_of_getLast? e
-    exact (hostPlainC_facts (hH 10 hm)).2.2.2.1 rfl
-  rw [Url.stripNl_of_not_nl H hnl]
   cases H with
   | nil => rfl
   | cons c t =>
@@ -1879,9 +1874,15 @@ theorem parseAuthority_plain (n : Bool) {P au H A : Str} (hP : UiPrefix P au)
     · exact h64 hm
   have hie : (P ++ (H ++ A)).isEmpty = false := by
     cases P <;> cases H <;> simp_all
+  have hHe : H.isEmpty = false := by cases H <;> simp_all
   unfold Url.parseAuthority
   simp only [hie, Bool.false_eq_true, if_false, rpartitionAt_prefix hP hX, hostPortRe_plain H A hH hne hA]
-  cases Url.portPart A <;> rfl
+  -- a non-empty host is never replaced by `None` (the delimiters-only rule needs `host == ""`)
+  cases Url.portPart A with
+  | none => rfl
+  | some v =>
+    simp only [Option.map_some, hHe, Bool.and_false, Bool.false_eq_true, if_false]
+    rfl
 
 theorem takeWhile_append_all {p : Nat → Bool} (L rest : Str) (hL : ∀ x ∈ L, p x = true) :
     (L ++ rest).takeWhile p = L ++ rest.takeWhile p ∧ (L ++ rest).dropWhile p = rest.dropWhile p := by
